@@ -3296,6 +3296,11 @@ class BatchDataset(Dataset):
                 except IndexError:
                     if i == 0 or self.drop_last:
                         raise
+                    elif input_index + i < len(self.input_dataset):
+                        # The index is valid. Hence the IndexError is not the
+                        # end of the input, it was raised while the example
+                        # was loaded (e.g. by a mapped function).
+                        raise
                     else:
                         pass
             return current_batch
